@@ -8,6 +8,10 @@ taken from the eager model only) is replayed on every surviving lazy row and on 
 built a second time and the same accesses are replayed in a shuffled (row, access) order to check that no access
 changes what another access returns.  Violations are delta-debugged (stages removed, source simplified) so that the
 signature names the smallest stage chain that still shows the same failure.
+
+Header maps need not name every column (HeadRows with a Mapping/Sequence naming a subset, a CSV header line shorter
+than its data lines), and on sparse rows keyed by header name (sparse ARFF, dicts + HeadRows) the label may be given
+by position through any stack of views; `domain_features` counts how often those shapes reach each kind of stage.
 """
 import random
 from vf import rows_c13 as M
